@@ -366,6 +366,9 @@ func c15verdict(c *mon.Ctx, handler, name string, want, got bool, guards string,
 	} else {
 		c.Count("handler_refusal")
 	}
+	if c.WantSample() && guards != "all-guards-hold" {
+		c.Sample(map[string]any{"handler": handler, "room_version": ver, "guards": guards, "expected_success": want, "handler_succeeded": got})
+	}
 	if want && !got {
 		c.Failf(handler+":refuses-although-every-guard-holds", "%s (v%s): every guard holds but the handler refused (%s)", handler, ver, guards)
 	}
